@@ -216,7 +216,10 @@ func (sta *State) UsedRandomCleaner() {
 		time.Sleep(replayCacheAgeLimit)
 		sta.usedRandomM.Lock()
 		for key, t := range sta.UsedRandom {
-			if time.Unix(t, 0).Before(sta.WorldState.Now().Add(timestampTolerance)) {
+			// an entry may only be forgotten once no packet that produced it can still be inside the
+			// acceptance window: its timestamp was within timestampTolerance of the time of sighting,
+			// so it stays acceptable for up to 2*timestampTolerance after that
+			if time.Unix(t, 0).Before(sta.WorldState.Now().Add(-2 * timestampTolerance)) {
 				delete(sta.UsedRandom, key)
 			}
 		}
